@@ -4,6 +4,10 @@ From Coq Require Import Reals Lra Lia Psatz.
 From DS Require Import Base.RMat Base.Trig Model.LatDefs Model.C01_Spec Gen.LatFormulas Proofs.C01_Lattice.
 Open Scope R_scope.
 
+(* equal up to re-spelling of ring expressions inside the same structure (robust against commuted products in the source) *)
+Ltac congr_ring := solve [reflexivity | ring | f_equal; congr_ring].
+
+
 Lemma cosd_acosd x : -1 <= x <= 1 -> cosd (acosd x) = x.
 Proof.
   intros H. unfold cosd, acosd. replace (acos x * 180 / PI * PI / 180) with (acos x) by (field; apply PI_neq0).
@@ -183,7 +187,7 @@ Proof.
     match goal with |- ?e <> 0 => replace e with (1 / (sa / (a * V)) * (b * sa) * c) by ring end.
     replace (1 / (sa / (a * V)) * (b * sa) * c) with (a * V * b * c) by (field; repeat split; lra).
     apply Rgt_not_eq. repeat apply Rmult_lt_0_compat; assumption. }
-  rewrite (minv_mmul_cancel S B DS). reflexivity.
+  rewrite (minv_mmul_cancel S B DS). congr_ring.
 Qed.
 
 Theorem setLatBase_base old B : l_base (setLatBase old B) = B.
